@@ -150,6 +150,29 @@ structure Node (α : Type) where
 def assemblyVolume (areas heights : List Rat) : Rat :=
   (match areas with | [] => 1 | a :: _ => a) * sumBy id heights
 
+/-! ## the derived (left-over) shape of a block -/
+
+/-- `hexagon.area(pitch)`: `SQRT3 / 2.0 * pitch**2` — `HexBlock.getMaxArea()` with the pitch of the
+pitch-defining component -/
+def hexMaxArea (sqrt3 pitch : Rat) : Rat := sqrt3 / 2 * (pitch * pitch)
+
+/-- `DerivedShape._deriveVolumeAndArea`: `remainingVolume = parent.getMaxArea() * parent.getHeight() −
+Σ sibling.getVolume()`; `ValueError` (`none`) when negative; the stored area is `remainingVolume / height`,
+or, in a zero-height block, `getMaxArea() − Σ sibling.getArea()` (`ValueError` when that is zero).
+Returns (volume, area).  The code's further precondition — no second `DerivedShape` among the siblings — is the
+hypothesis `exactly one derived shape` of the theorems. -/
+def deriveVolumeAndArea (maxArea height : Rat) (sibVols sibAreas : List Rat) : Option (Rat × Rat) :=
+  let remainingVolume := maxArea * height - sumBy id sibVols
+  let remainingArea := maxArea - sumBy id sibAreas
+  if remainingVolume < 0 then none
+  else if height = 0 then
+    (if sumBy id sibAreas = 0 ∨ remainingArea = 0 then none else some (remainingVolume, remainingArea))
+  else some (remainingVolume, remainingVolume / height)
+
+/-- `DerivedShape.getComponentArea(cold=True)` / `(Tc=T)`: `parent.getMaxArea() − Σ sibling areas` at those
+conditions -/
+def derivedAreaAt (maxArea : Rat) (sibAreas : List Rat) : Rat := maxArea - sumBy id sibAreas
+
 def dedup : List Nuc → List Nuc
   | [] => []
   | n :: l => if (dedup l).contains n then dedup l else n :: dedup l
